@@ -108,6 +108,16 @@ def d1(ctx, prog):
                 op = type(c.ops[0])
                 refuses_equal = (neg and op is ast.Lt) or (not neg and op is ast.GtE)
                 strict = (n, refuses_equal)
+            elif loop is not None and isinstance(loop.target, ast.Name) and isinstance(loop.iter, ast.Call) and norm(loop.iter.func) == 'range' and len(loop.iter.args) == 1:
+                # index loop: for i in range(len(E) - 1): a = E[i]; b = E[i + 1]; if not a < b: raise
+                iv = loop.target.id
+                bound = astutil.affine(loop.iter.args[0])
+                ldef = {s_.targets[0].id: s_.value for s_ in loop.body if isinstance(s_, ast.Assign) and len(s_.targets) == 1 and isinstance(s_.targets[0], ast.Name)}
+                ea, eb = ldef.get(c.left.id, c.left), ldef.get(c.comparators[0].id, c.comparators[0])
+                if isinstance(ea, ast.Subscript) and isinstance(eb, ast.Subscript) and norm(ea.value) == norm(eb.value) and bound == {f'len({norm(ea.value)})': 1, '': -1} \
+                        and astutil.affine(ea.slice) == {iv: 1} and astutil.affine(eb.slice) == {iv: 1, '': 1}:
+                    op = type(c.ops[0])
+                    strict = (n, (neg and op is ast.Lt) or (not neg and op is ast.GtE))
     key = f'{setter.key}::increasing test'
     if strict is None:
         # vectorised forms: any(E[1:] <= E[:-1]) / not all(E[1:] > E[:-1])  (element comparison: right for every dtype), or the same
